@@ -24,7 +24,7 @@ from . import c06
 
 REPLAY_BY_RERUN = True  # workloads are deterministic in (tier, seed, shard): replay re-runs the shard
 SHARDS = {"quick": 8, "thorough": 16}
-TIMEOUT = {"quick": 900, "thorough": 3600}
+TIMEOUT = {"quick": 1800, "thorough": 7200}
 N_HIST = {"quick": 3, "thorough": 40}
 N_STRACE = {"quick": 1, "thorough": 8}
 MUTATORS = {"insert", "insert_multiple", "update", "update_all", "remove", "remove_all", "drop_measurement"}
